@@ -92,7 +92,8 @@ def handleShared (args obs : List String) : Verdict :=
 /-- `life <N> | script:outs:exit script:outs:exit …` (consecutive lifetimes of one call site).
     A script is one call string per installation of the site within the lifetime, joined by `+`
     (`mm+mx`: install, two calls, install again on another function, two calls); a trailing `!`
-    marks a lifetime left by a panic raised in its body.  `outs` has the same shape. -/
+    marks a lifetime left by a panic raised in its body, a leading `^` one whose first installation was made
+    by a destructor running while the thread unwound.  `outs` has the same shape. -/
 def handleLife (args obs : List String) : Verdict :=
   match args with
   | [nS] =>
@@ -101,7 +102,7 @@ def handleLife (args obs : List String) : Verdict :=
       let parts := obs.map (fun p => p.splitOn ":")
       let hist : List (Nat × List (List Bool) × Bool) := parts.map (fun p =>
         let sc := p.getD 0 "-"
-        (n, ((sc.replace "!" "").splitOn "+").map scriptOf, sc.endsWith "!"))
+        (n, (((sc.replace "!" "").replace "^" "").splitOn "+").map scriptOf, sc.endsWith "!"))
       let cp := Generated.Layout.verifierChecksPanicking
       let model := lifetimes Generated.Layout.counterResetOnInstall cp 0 hist
       let render := fun (r : List (List CallOut) × ExitOut) =>
@@ -116,7 +117,8 @@ def handleLife (args obs : List String) : Verdict :=
       let firstBad := (List.zip (List.range alone.length) (List.zip alone implStr)).find? (fun x => x.2.1 != x.2.2)
       { agree := agree, propOk := pOk,
         branch := "life" ++ (if hist.length > 4 then "+many" else "") ++ (if hist.any (·.2.2) then "+unwound" else "") ++
-                  (if hist.any (·.2.1.length > 1) then "+reinstall" else ""),
+                  (if hist.any (·.2.1.length > 1) then "+reinstall" else "") ++
+                  (if parts.any (fun p => (p.getD 0 "").startsWith "^") then "+install-while-unwinding" else ""),
         detail := (if agree then "" else "model=" ++ String.intercalate " " (model.map render)) ++
                   (match firstBad with | some (i, _) => " key=c07.lifetime-" ++ (if i == 0 then "first" else "later") | none => "") }
     | none => bad "args"
